@@ -952,6 +952,14 @@ func (x *Exec) recvInvariant(fr *Frame, st *State, ch ssa.Value, v Val) (Term, b
 		}
 		env := x.envFor(fr, st, fr.entry)
 		env.names["value"] = v
+		// "owner": the object whose field holds the channel
+		if ld, ok := ch.(*ssa.UnOp); ok {
+			if fa, ok := ld.X.(*ssa.FieldAddr); ok {
+				if ov, err := x.val(fr, st, fa.X); err == nil {
+					env.names["owner"] = ov
+				}
+			}
+		}
 		g, err := env.Bool(ri.Clause.E)
 		if err != nil {
 			return Term{}, false, engineErr("recv invariant of %s.%s: %v", ri.Owner, ri.Field, err)
